@@ -47,6 +47,8 @@ def job(mode, d):
         except Exception:
             meta = {}
         props = [meta.get("property")] if mode == "mut" else PROPS
+        if os.environ.get("PAR_PROPS"):
+            props = os.environ["PAR_PROPS"].split(",")
         res = {}
         for p in props:
             r = sh(f"/verif/bin/jivacheck -property {p} -repo {wt} -verif {v}")
